@@ -71,11 +71,31 @@ def instance_line(jobs) -> str:
 
 
 REUSE_OPERATIONS = False
+OP_SUBCLASS = False    # set per scenario by framework.run_impl: operations are instances of a user subclass with extra attributes
 SIBLING = False     # set per scenario by framework.run_impl: a busy sibling dispatcher on another instance in the same process
 
 
+class UserOperation(Operation):
+    """What a user's own Operation subclass looks like: extra data the library knows nothing about (and must ignore)."""
+    __slots__ = ("release_date", "due_date", "weight", "setup_time", "priority", "start_time", "end_time")
+
+    def __init__(self, machines, duration, k):
+        super().__init__(machines, duration)
+        self.release_date = 1000 + 37 * k
+        self.due_date = 5 + k
+        self.weight = 3 + (k % 4)
+        self.setup_time = 11 + k
+        self.priority = 100 - k
+        self.start_time = 999 + k
+        self.end_time = 1 + k
+
+
 def build_instance(jobs, name="verif") -> JobShopInstance:
-    ops = [[Operation(list(ms) if len(ms) != 1 else ms[0], d) for ms, d in job] for job in jobs]
+    if OP_SUBCLASS:
+        k = iter(range(10 ** 6))
+        ops = [[UserOperation(list(ms) if len(ms) != 1 else ms[0], d, next(k)) for ms, d in job] for job in jobs]
+    else:
+        ops = [[Operation(list(ms) if len(ms) != 1 else ms[0], d) for ms, d in job] for job in jobs]
     if REUSE_OPERATIONS and sum(len(j) for j in ops) >= 3:
         # the Operation objects were used before, in another instance with a different job structure (same first and last
         # operation, the inner ones regrouped): the new instance labels them afresh
@@ -266,6 +286,9 @@ class Impl:
 
     def cmd_snap(self, ts):
         return self.snapshot()
+
+    def cmd_ready(self, ts):
+        return fmt_bool(bool(self.dispatcher.is_operation_ready(self.op(int(ts[0])))))
 
     def cmd_flt(self, ts):
         k = ts.index(";")
